@@ -30,6 +30,15 @@ def run_one(m, repo, keep=False):
             return (m["id"], "invalid", "does not compile: " + b.stderr.strip()[:300])
         results = {}
         props = m["props"] if "props" in m else [m["prop"]]
+        if ALL:
+            r = subprocess.run([os.path.join(HERE, "bin", "escalint"), "check", "-prop", "all", "-repo", dst, "-verif", HERE, "-n"],
+                               capture_output=True, text=True, env=env)
+            fired = sorted(set(l.split("property=")[1].split()[0] for l in r.stdout.splitlines() if l.startswith("VIOLATION")))
+            kinds = sorted(set(l.split()[0] + ":" + l.split()[1] for l in r.stdout.splitlines() if l.startswith(("VIOLATED", "UNDECIDED", "VACUOUS", "ANCHOR-LOST"))))
+            expect = m.get("expect", "fire")
+            ok = (all(p in fired for p in props)) if expect == "fire" else (len(fired) == 0)
+            extra = [p for p in fired if p not in props]
+            return (m["id"], "ok" if ok else "FAIL", "fired=%s extra=%s rules=%s" % (",".join(fired), ",".join(extra), " ".join(kinds)))
         for prop in props:
             r = subprocess.run([os.path.join(HERE, "bin", "escalint"), "check", "-prop", prop, "-repo", dst, "-verif", HERE, "-n"],
                                capture_output=True, text=True, env=env)
@@ -60,14 +69,19 @@ def run_one(m, repo, keep=False):
         if not keep:
             shutil.rmtree(tmp, ignore_errors=True)
 
+ALL = False
+
 def main():
+    global ALL
     ap = argparse.ArgumentParser()
+    ap.add_argument("--all", action="store_true", help="run every property check on each mutant and report which fire")
     ap.add_argument("-p", default=None)
     ap.add_argument("-k", default=None)
     ap.add_argument("-j", type=int, default=8)
     ap.add_argument("--repo", default="/repo")
     ap.add_argument("--corpus", default=os.path.join(HERE, "mutants", "corpus.json"))
     args = ap.parse_args()
+    ALL = args.all
     corpus = json.load(open(args.corpus))
     sel = [m for m in corpus if (not args.p or args.p in (m.get("props") or [m.get("prop")])) and (not args.k or args.k in m["id"])]
     bad = 0
